@@ -306,6 +306,11 @@ def gen_case_abort(seed, i):
     # the raise policy alone, or together with the other flags (stop and fail also mark the csvpath before the exception leaves)
     policy = r.choice([["raise", "collect"], ["raise", "collect"], ["raise", "collect", "stop"], ["raise", "collect", "stop", "fail", "print"],
                        ["raise", "collect", "fail"]])
+    if line >= 2 and r.random() < 0.35:
+        # blank lines before the aborting record: they are physical lines (the error is recorded with the physical line number)
+        for _ in range(r.randint(1, 2)):
+            recs.insert(r.randint(2, line), [])
+            line += 1
     return {"recs": recs, "members": members, "k": k, "line": line, "method": method, "follow": follow, "policy": policy}
 
 
